@@ -72,9 +72,9 @@ what the model in this file transliterates. A structural edit of any of these fu
 check searching for a failing input. -/
 theorem C20_wiring :
     Sso.Generated.skel_proxy_ErrorPage =
-      ["call:isXHR", "if{", "call:New", "call:XHRError", "return", "}", "call:getRemoteAddr", "call:NewLogEntry", "call:WithRemoteAddress", "call:WithHTTPStatus", "call:WithPageTitle", "call:WithPageMessage", "call:Info", "call:WriteHeader", "call:ExecuteTemplate"] ∧
+      ["call:isXHR", "if{", "call:New", "call:XHRError", "return", "}", "call:getRemoteAddr", "call:WriteHeader", "call:ExecuteTemplate"] ∧
     Sso.Generated.skel_proxy_XHRError =
-      ["call:getRemoteAddr", "call:NewLogEntry", "call:WithRemoteAddress", "call:Marshal", "if{", "call:WriteHeader", "return", "}", "call:String", "call:WithHTTPStatus", "call:WithRequestURI", "call:Error", "call:Header", "call:Set", "call:WriteHeader", "call:Write"] ∧
+      ["call:getRemoteAddr", "call:Marshal", "if{", "call:WriteHeader", "return", "}", "call:Header", "call:Set", "call:WriteHeader", "call:Write"] ∧
     Sso.Generated.skel_auth_SignOutPage =
       ["call:Get", "call:LoadSession", "if{", "call:Redirect", "return", "}", "call:Get", "call:Get", "call:Parse", "if{", "call:WriteHeader", "}", "call:Data", "call:ExecuteTemplate", "return"] ∧
     Sso.Generated.skel_auth_SignInPage =
@@ -87,7 +87,7 @@ theorem C20_no_trusted_template_types : Sso.Generated.trustedTemplateTypes = [] 
 /-- Tie (T1): the authenticator's `ErrorResponse` has two branches only — JSON (marshalled) and the HTML template — and sets
 the status after choosing. -/
 theorem C20_skeleton_ErrorResponse : Sso.Generated.skel_auth_ErrorResponse =
-    ["call:NewLogEntry", "call:Get", "if{", "store:response.Error", "call:writeJSONResponse", "}", "else{", "call:StatusText", "call:WithHTTPStatus", "call:WithPageTitle", "call:WithPageMessage", "call:Info", "call:WriteHeader", "call:ExecuteTemplate", "}"] := by decide
+    ["call:Get", "if{", "store:response.Error", "call:writeJSONResponse", "}", "else{", "call:StatusText", "call:WriteHeader", "call:ExecuteTemplate", "}"] := by decide
 
 /-- Tie (T1): JSON bodies are what `encoding/json` produced, written as is. -/
 theorem C20_skeleton_writeJSONResponse : Sso.Generated.skel_auth_writeJSONResponse =
